@@ -75,6 +75,7 @@ struct Model {
     mapped: Vec<u16>,
     // dynamic
     entries: Vec<Ent>,
+    multi_depth: u32,
     default_layer: usize,
     pending: std::collections::VecDeque<(bool, u16)>,
     prev_keys: Vec<String>,
@@ -106,6 +107,7 @@ impl Model {
             process_unmapped: false,
             mapped: vec![],
             entries: vec![],
+            multi_depth: 0,
             default_layer: 0,
             pending: Default::default(),
             prev_keys: vec![],
@@ -256,8 +258,11 @@ impl Model {
         }
         let mut pos = pos;
         let ac = if Self::is_trans(ac) { self.resolve(coord, order, &mut pos) } else { ac.clone() };
-        // before any action, keys flagged clear-on-next-action go
-        self.entries.retain(|e| !matches!(e, Ent::Key { clear_on_next_action: true, .. }));
+        // before any action, keys flagged clear-on-next-action go (the items of one multi are one
+        // action in this respect: an output chord inside a multi survives the items after it)
+        if self.multi_depth == 0 {
+            self.entries.retain(|e| !matches!(e, Ent::Key { clear_on_next_action: true, .. }));
+        }
         match &ac {
             SX::A(s) => {
                 if s == "XX" {
@@ -296,9 +301,11 @@ impl Model {
                 let head = v[0].atom().unwrap_or("");
                 match head {
                     "multi" => {
+                        self.multi_depth += 1;
                         for sub in &v[1..] {
                             self.do_action(sub, coord, order, pos);
                         }
+                        self.multi_depth -= 1;
                     }
                     "layer-while-held" | "layer-toggle" => {
                         if let Some(i) = self.layer_idx(v[1].atom().unwrap_or("")) {
